@@ -57,6 +57,46 @@ def run(rep, tier, seed, replay):
             if not rooted and comps(rootseg) != comps(base):
                 problems.append(("root", "the root segment %r is not the directory %r given to the walk" % (rootseg, base)))
             checks.append((c, it, problems, expr.replace("@R", unhx(c.f.get("root_real", "-"))), rel.replace("@R", unhx(c.f.get("root_real", "-")))))
+    # the join clause on the entries AS OS PATHS (the items above are compared as text): counted inside the harness
+    for c in cases:
+        if c.head.startswith("root=") and "joinfail" in c.f:
+            d = c.describe()
+            rep.violation("oracle", "for %s entries the root segment joined with the relative segment is not the entry's path (compared as OS paths)" % c.f["joinfail"], d, impl=c.impl[:300])
+    # ---- names that are not UTF-8 (Latin-1 bytes): matching and the printed items use the lossy text, the segments must still
+    # be pieces of the REAL path
+    if replay is None or replay["input"].get("what") == "bytes":
+        from walkgen import T
+        hh, mm_ = common.harness(), common.model()
+        trees = [T("b:docs/r\xe9sum\xe9.txt", "b:docs/caf\xe9/menu.txt", "f:docs/plain.txt"),
+                 T("b:\xff", "b:\xe9/\xe9/\xe9", "f:a/b"),
+                 T("b:a/\xc3", "b:a/b\xa0c/d.txt", "f:a/ok.txt", "d:a/e")]
+        globs = ["**", "docs/**/*.txt", "*/*/*", "**/*.txt", "a/**", "*", "docs/*/menu.txt", "a/*/d.txt"]
+        bb = [(tr, g, lk) for tr in trees for g in globs for lk in "ft"]
+        if replay is not None:
+            bb = [(replay["input"]["tree"], replay["input"]["glob"], replay["input"]["link"])]
+        ans = hh.ask(["W g - %s %s - - - %s" % (hx(g), lk, tr) for tr, g, lk in bb])
+        mreq, keep = [], []
+        for (tr, g, lk), a in zip(bb, ans):
+            head, f = walklib.parse_answer(a)
+            if not head.startswith("root="):
+                rep.stats["bytes:" + head] += 1
+                continue
+            keep.append((tr, g, lk, f, a))
+            mreq.append("W g %s %s %s - - - %s %s" % (f.get("base", "-"), hx(g), lk, f.get("root", "-"), f.get("rec", "-")))
+        rep.evaluations += len(bb)
+        for (tr, g, lk, f, a), ma in zip(keep, mm_.ask(mreq)):
+            rep.traces += 1
+            inp = {"what": "bytes", "tree": tr, "glob": g, "link": lk}
+            mh, mf = walklib.parse_answer(ma)
+            if mf.get("items") != f.get("items"):
+                rep.stats["correspondence-broken"] += 1
+                rep.violation("correspondence", "walk: ordered items of the real walk vs the walk model (names that are not UTF-8)", inp, impl=(f.get("items") or "")[:300], model=(mf.get("items") or mh)[:300])
+            if "joinfail" in f:
+                rep.violation("oracle", "for %s entries with a name that is not UTF-8 the root segment joined with the relative segment is not the entry's path (compared as OS paths)" % f["joinfail"], inp, impl=a[:300])
+            else:
+                rep.stats["bytes: segments join to the real path"] += 1
+                if walklib.ok_items(f.get("items")):
+                    rep.distinct.add(("bytes", tr, g, lk))
     res = common.harness().ask(["M %s %s" % (hx(e), hx(r)) for _c, _it, _p, e, r in checks])
     for (c, it, problems, e, r), line in zip(checks, res):
         if not line.startswith("match"):
